@@ -3,6 +3,7 @@ package props
 import (
 	"go/token"
 	"go/types"
+	"strings"
 
 	"golang.org/x/tools/go/ssa"
 
@@ -244,7 +245,7 @@ func init() {
 				if ruleIn(o, "SL") && subjHas(o, "Buffer.cond") {
 					return true
 				}
-				if ruleIn(o, "G") && subjHas(o, "cell:timer", "cell:broadcast") {
+				if ruleIn(o, "G") && subjHas(o, "cell:") && (strings.Contains(o.Subject, "timer") || strings.Contains(o.Subject, "broadcast")) {
 					return true
 				}
 				if ruleIn(o, "P", "WL", "SL") && funcHas(o, "WaitCond") {
